@@ -262,6 +262,13 @@ def _visited_discipline(fn: Func, loop, v: str):
         if isinstance(e, ast.Name) and e.id != var and len(assigns.get(e.id, [])) == 1:
             e = assigns[e.id][0]
         return norm(e).replace(var, "X") if var else norm(e)
+    # descending a tree needs no visited set: every growth pushes children of the popped element (the property / scenario
+    # tree is finite and acyclic -- stated assumption of C11)
+    grow_args = [a_ for st in loop.body for k in ast.walk(st) if isinstance(k, ast.Call) and isinstance(k.func, ast.Attribute)
+                 and k.func.attr in ("append", "extend", "insert", "appendleft") and norm(k.func.value) == v for a_ in k.args]
+    if grow_args and all(norm(a_) in (f"{popped}.children", f"{popped}.kids()", f"reversed({popped}.children)", f"list({popped}.children)")
+                         for a_ in grow_args):
+        return (True, f"pushes only the children of the popped element ({popped}.children): a tree descent")
     adds = [x for st in loop.body for x in ast.walk(st) if isinstance(x, ast.Call) and isinstance(x.func, ast.Attribute)
             and x.func.attr == "add" and len(x.args) == 1]
     for a in adds:
